@@ -2,6 +2,8 @@ package main
 
 import (
 	"go/types"
+	"net/url"
+	"reflect"
 	"strings"
 
 	"golang.org/x/tools/go/ssa"
@@ -218,5 +220,59 @@ func init() {
 		}
 		fault("io.Copy from %v", src.t)
 		return nil
+	}
+}
+
+// nativeStruct converts a native Go struct (strings, bools, integers, nil pointers)
+// into an interpreter value of the given go/types struct type.
+func nativeStruct(v reflect.Value, t types.Type) value {
+	st := t.Underlying().(*types.Struct)
+	out := make(structure, st.NumFields())
+	for k := 0; k < st.NumFields(); k++ {
+		f := st.Field(k)
+		fv := v.FieldByName(f.Name())
+		switch {
+		case !fv.IsValid():
+			out[k] = zero(f.Type())
+		case fv.Kind() == reflect.String:
+			out[k] = TStr(fv.String())
+		case fv.Kind() == reflect.Bool:
+			out[k] = TBool(fv.Bool())
+		case fv.CanInt():
+			w, _, _ := bvWidth(f.Type())
+			out[k] = TBV(w, uint64(fv.Int()))
+		default:
+			out[k] = zero(f.Type())
+		}
+	}
+	return out
+}
+
+func init() {
+	intrinsics["net/url.Parse"] = func(i *Interp, _ *frame, fn *ssa.Function, a []value) value {
+		s := a[0].(*Term)
+		if !s.Const {
+			fault("net/url.Parse of a symbolic string")
+		}
+		u, err := url.Parse(s.S)
+		if err != nil {
+			return tuple{(*value)(nil), mkError(TStr(err.Error()))}
+		}
+		pt := fn.Signature.Results().At(0).Type().(*types.Pointer)
+		p := new(value)
+		*p = nativeStruct(reflect.ValueOf(*u), pt.Elem())
+		return tuple{p, iface{}}
+	}
+	intrinsics["strings.Cut"] = func(i *Interp, _ *frame, _ *ssa.Function, a []value) value {
+		s, sep := a[0].(*Term), a[1].(*Term)
+		if s.Const && sep.Const {
+			b, af, ok := strings.Cut(s.S, sep.S)
+			return tuple{TStr(b), TStr(af), TBool(ok)}
+		}
+		if !i.branch(StrContains(s, sep)) {
+			return tuple{s, TStr(""), TBool(false)}
+		}
+		k := StrIndexOf(s, sep, TInt(0))
+		return tuple{StrSubstr(s, TInt(0), k), StrSubstr(s, IntBin("+", k, StrLenInt(sep)), StrLenInt(s)), TBool(true)}
 	}
 }
